@@ -14,6 +14,7 @@ mod json;
 mod rng;
 mod spec;
 mod syncdrive;
+mod threads;
 mod wire;
 
 mod c01;
